@@ -276,17 +276,55 @@ def check_mixture(path, case, res):
     return it
 
 
+def _created_dialect(case, db, path, res, label):
+    """FeatureDB reports the dialect of the input it was created from.  returns a copy of it"""
+    from gffutils import iterators
+    d0 = copy.deepcopy(db.dialect)
+    want = iterators.DataIterator(path).dialect
+    if d0 != want:
+        common.fail(res, case, "db_dialect_differs", "FeatureDB.dialect differs from the inferred dialect of its input "
+                    "(%s)" % label, db=d0, iterator=want)
+    return d0
+
+
+def _reopen_same_dialect(case, db, dbfn, d0, res, label):
+    """after an update with data written in ANOTHER dialect the database still reports the dialect of the input it was
+    created from: the live object and a freshly opened FeatureDB.  returns the reopened FeatureDB"""
+    import gffutils
+    re_db = gffutils.FeatureDB(dbfn)
+    if db.dialect != d0 or re_db.dialect != d0:
+        common.fail(res, case, "db_dialect_changed_by_update",
+                    "%s: after update() with data in another dialect FeatureDB.dialect no longer states the dialect of "
+                    "the input the database was created from" % label,
+                    created=d0, live_after_update=db.dialect, reopened=re_db.dialect)
+    return re_db
+
+
+def _gtf_links_missing(lines, rels):
+    """GFF3- or GTF-syntax lines that carry gene_id / transcript_id: those without a level-1 relation from their
+    transcript_id to an exon_<n> feature"""
+    def tid(l):
+        a = l.split("\t")[8]
+        return a.split("transcript_id=")[1].split(";")[0] if "transcript_id=" in a else \
+            a.split('transcript_id "')[1].split('"')[0]
+    return [l for l in lines if not any(c.startswith("exon_") and p == tid(l) and lv == 1 for p, c, lv in rels)]
+
+
 def check_update_gtf_db(ctx, case, res):
-    """a GTF-format database updated with GFF3-syntax lines applies GTF semantics.  returns (db | None, create reply,
-    True when the update went through)"""
+    """a GTF-format database updated with GFF3-syntax lines applies GTF semantics; it still reports its own dialect
+    afterwards (live and reopened), and a SECOND update - case["second"], on the reopened database - still applies GTF
+    semantics.  returns (db | None, create reply, True when the update(s) went through); db is the reopened database
+    when the case has a second update"""
     import warnings
     gtf_db, new_gff_syntax = case["base"], case["input"]
     p1 = write_file(ctx, "u1.gtf", gtf_db)
     p2 = write_file(ctx, "u2.gff3", new_gff_syntax)
-    db, rep = dbside.py_create(p1, dbside.Cfg())
+    dbfn = os.path.join(ctx.scratch, "u1.db") if "second" in case else ":memory:"
+    db, rep = dbside.py_create(p1, dbside.Cfg(), dbfn=dbfn)
     res.evaluations += 1
     if db is None:
         return None, rep, False
+    d0 = _created_dialect(case, db, p1, res, "GTF database")
     try:
         with warnings.catch_warnings():
             warnings.simplefilter("ignore")
@@ -296,25 +334,47 @@ def check_update_gtf_db(ctx, case, res):
                     error=dbside.err_name(ex), observed=repr(ex))
         return db, rep, False
     rels = set(dbside.rels_of(db))
-    bad = [l for l in new_gff_syntax if not any(c.startswith("exon_") and p == l.split("transcript_id=")[1].split(";")[0]
-                                                and lv == 1 for p, c, lv in rels)]
+    bad = _gtf_links_missing(new_gff_syntax, rels)
     if any(p == "P" for p, c, lv in rels) or bad:
         common.fail(res, case, "gtf_db_update_not_gtf_semantics",
                     "update() of a GTF-format database did not apply GTF semantics to the new lines "
                     "(relations must come from transcript_id/gene_id, not from Parent)", relations=sorted(rels),
                     lines_without_transcript_link=bad)
+    if "second" not in case:
+        return db, rep, True
+    db = _reopen_same_dialect(case, db, dbfn, d0, res, "GTF database")
+    p3 = write_file(ctx, "u2b.gxf", case["second"])
+    try:
+        with warnings.catch_warnings():
+            warnings.simplefilter("ignore")
+            db.update(p3, make_backup=False, merge_strategy="create_unique")
+    except Exception as ex:
+        common.fail(res, case, "update_raised", "second update of a GTF database raised %r" % ex,
+                    error=dbside.err_name(ex), observed=repr(ex))
+        return db, rep, False
+    rels = set(dbside.rels_of(db))
+    bad = _gtf_links_missing(case["second"], rels)
+    if any(p == "P" for p, c, lv in rels) or bad:
+        common.fail(res, case, "gtf_db_update_not_gtf_semantics",
+                    "the SECOND update() of a GTF-format database (reopened after an update with GFF3-syntax lines) did "
+                    "not apply GTF semantics (relations must come from transcript_id/gene_id, not from Parent)",
+                    relations=sorted(rels), lines_without_transcript_link=bad)
+    _reopen_same_dialect(case, db, dbfn, d0, res, "GTF database (second update)")
     return db, rep, True
 
 
 def check_update_gff_db(ctx, case, res):
-    """the reverse: a GFF3 database updated with GTF-syntax lines keeps GFF3 semantics"""
+    """the reverse: a GFF3 database updated with GTF-syntax lines keeps GFF3 semantics, keeps reporting its own dialect
+    (live and reopened), and a second update of the reopened database - case["second"] - keeps GFF3 semantics"""
     import warnings
     gff_db, new_gtf_syntax = case["base"], case["input"]
     p3 = write_file(ctx, "u3.gff3", gff_db)
     p4 = write_file(ctx, "u4.gtf", new_gtf_syntax)
-    db, rep = dbside.py_create(p3, dbside.Cfg())
+    dbfn = os.path.join(ctx.scratch, "u3.db") if "second" in case else ":memory:"
+    db, rep = dbside.py_create(p3, dbside.Cfg(), dbfn=dbfn)
     if db is None:
         return None, rep
+    d0 = _created_dialect(case, db, p3, res, "GFF3 database")
     with warnings.catch_warnings():
         warnings.simplefilter("ignore")
         db.update(p4, make_backup=False, merge_strategy="create_unique")
@@ -322,6 +382,17 @@ def check_update_gff_db(ctx, case, res):
         common.fail(res, case, "gff3_db_update_gtf_semantics",
                     "update() of a GFF3-format database applied GTF semantics to GTF-looking lines",
                     relations=sorted(dbside.rels_of(db)))
+    if "second" not in case:
+        return db, rep
+    db = _reopen_same_dialect(case, db, dbfn, d0, res, "GFF3 database")
+    with warnings.catch_warnings():
+        warnings.simplefilter("ignore")
+        db.update(write_file(ctx, "u4b.gtf", case["second"]), make_backup=False, merge_strategy="create_unique")
+    if dbside.rels_of(db) or any(f.source == "gffutils_derived" for f in db.all_features()):
+        common.fail(res, case, "gff3_db_update_gtf_semantics",
+                    "the SECOND update() of a GFF3-format database (reopened after an update with GTF-syntax lines) "
+                    "applied GTF semantics to GTF-looking lines", relations=sorted(dbside.rels_of(db)))
+    _reopen_same_dialect(case, db, dbfn, d0, res, "GFF3 database (second update)")
     return db, rep
 
 
@@ -368,7 +439,8 @@ def run(ctx):
                 "on windows mixing two values of one dialect key with weights 0-5 (all ties), vs an independent "
                 "weighted-majority/first-seen computation; (c) files written in one dialect (every line >= 2 parts), "
                 "checklines 0..n+2: DataIterator.dialect, FeatureDB.dialect after import and reopen, supplied dialect "
-                "verbatim, GFF3/GTF routing. non-trivial = distinct (dialect, window) with >= 2 lines")
+                "verbatim, GFF3/GTF routing; (d) a database of one format updated with lines in the other syntax, reopened "
+                "(the reported dialect stays that of the creation input) and updated again. non-trivial = distinct (dialect, window) with >= 2 lines")
     res.constants_checked = pc.parser_constants(ctx, res)
     cmds, exp, tags = [], [], []
 
@@ -492,6 +564,7 @@ def run(ctx):
 
     # the format of the DATABASE decides the semantics of update(), whatever dialect the new data is written in --------
     import gen_db
+    r2 = ctx.rng("c09", "second update")
     for i in range(10 if not ctx.thorough else 100):
         gtf_db = [gen_db.gtf_line("chr1", "exon", 10, 50, "+", [("gene_id", ["G"]), ("transcript_id", ["T"])]),
                   gen_db.gtf_line("chr1", "exon", 80, 120, "+", [("gene_id", ["G"]), ("transcript_id", ["T"])])]
@@ -499,25 +572,46 @@ def run(ctx):
         new_gff_syntax = [gen_db.gff_line("chr1", "exon", 200 + 100 * j, 250 + 100 * j, "+",
                                           [("gene_id", ["G"]), ("transcript_id", ["T%d" % r.randrange(2)]), ("Parent", ["P"])])
                           for j in range(n)]
+        # ... and it goes on reporting its own dialect; a second update, of the reopened database, with lines in either
+        # syntax, is still a GTF import
+        n2 = r2.randrange(1, 4)
+        if r2.random() < 0.5:
+            second = [gen_db.gtf_line("chr3", "exon", 100 + 400 * j, 300 + 400 * j, "-",
+                                      [("gene_id", ["G9"]), ("transcript_id", ["T9%d" % r2.randrange(2)])]) for j in range(n2)]
+        else:
+            second = [gen_db.gff_line("chr3", "exon", 100 + 400 * j, 300 + 400 * j, "-",
+                                      [("gene_id", ["G9"]), ("transcript_id", ["T9%d" % r2.randrange(2)]), ("Parent", ["P"])])
+                      for j in range(n2)]
         cfg = dbside.Cfg()
         db, rep, updated = check_update_gtf_db(ctx, {"scenario": "update_gtf_db", "base": gtf_db,
-                                                     "input": new_gff_syntax}, res)
+                                                     "input": new_gff_syntax, "second": second}, res)
         if not updated:
             continue
+        res.count("gtf_db_updated_twice_reopened")
         cmds.append(dbside.cmd_create(gtf_db, cfg)); exp.append(rep); tags.append(("create_db", repr(gtf_db)))
         ucfg = dbside.Cfg(strategy="create_unique")
         cmds.append(dbside.cmd_update(new_gff_syntax, ucfg)); exp.append("ok"); tags.append(("update routing", repr(new_gff_syntax)))
-        cmds.append("dump"); exp.append(dbside.dump(db)); tags.append(("tables after update", repr((gtf_db, new_gff_syntax))))
+        cmds.append("reopen"); exp.append("ok"); tags.append(("reopen", repr((gtf_db, new_gff_syntax))))
+        cmds.append(dbside.cmd_update(second, ucfg)); exp.append("ok"); tags.append(("update routing (second)", repr(second)))
+        cmds.append("reopen"); exp.append("ok"); tags.append(("reopen", repr((gtf_db, new_gff_syntax, second))))
+        cmds.append("dump"); exp.append(dbside.dump(db)); tags.append(("tables after update, reopen, update", repr((gtf_db, new_gff_syntax, second))))
         # and the reverse: a GFF3 database updated with GTF-syntax lines keeps GFF3 semantics
         gff_db = [gen_db.gff_line("chr1", "gene", 1, 500, "+", [("ID", ["g"])])]
         new_gtf_syntax = [gen_db.gtf_line("chr1", "exon", 10 + 100 * j, 50 + 100 * j, "+", [("gene_id", ["G"]), ("transcript_id", ["T"])])
                           for j in range(n)]
-        db, rep = check_update_gff_db(ctx, {"scenario": "update_gff3_db", "base": gff_db, "input": new_gtf_syntax}, res)
+        second = [gen_db.gtf_line("chr3", "exon", 100 + 400 * j, 300 + 400 * j, "-",
+                                  [("gene_id", ["G9"]), ("transcript_id", ["T9%d" % r2.randrange(2)])]) for j in range(n2)]
+        db, rep = check_update_gff_db(ctx, {"scenario": "update_gff3_db", "base": gff_db, "input": new_gtf_syntax,
+                                            "second": second}, res)
         if db is None:
             continue
+        res.count("gff3_db_updated_twice_reopened")
         cmds.append(dbside.cmd_create(gff_db, cfg)); exp.append(rep); tags.append(("create_db", repr(gff_db)))
         cmds.append(dbside.cmd_update(new_gtf_syntax, ucfg)); exp.append("ok"); tags.append(("update routing", repr(new_gtf_syntax)))
-        cmds.append("dump"); exp.append(dbside.dump(db)); tags.append(("tables after update", repr((gff_db, new_gtf_syntax))))
+        cmds.append("reopen"); exp.append("ok"); tags.append(("reopen", repr((gff_db, new_gtf_syntax))))
+        cmds.append(dbside.cmd_update(second, ucfg)); exp.append("ok"); tags.append(("update routing (second)", repr(second)))
+        cmds.append("reopen"); exp.append("ok"); tags.append(("reopen", repr((gff_db, new_gtf_syntax, second))))
+        cmds.append("dump"); exp.append(dbside.dump(db)); tags.append(("tables after update, reopen, update", repr((gff_db, new_gtf_syntax, second))))
 
     out = ctx.model(cmds)
     if out is not None:
@@ -527,6 +621,8 @@ def run(ctx):
                 a, b = dbside.parse_dump(m), dbside.parse_dump(e)
                 same = ("error" not in a and "error" not in b and
                         sorted(map(str, a["features"])) == sorted(map(str, b["features"])) and a["relations"] == b["relations"])
+                if same and "reopen" in comp:
+                    same = a["dialect"] == b["dialect"]        # the dialect the reopened database reports
                 if not same:
                     res.corr_disagreements.append((comp, inp[:600], m[:500], e[:500]))
                 continue
